@@ -40,7 +40,7 @@ def traces_of(ctx, name, r, variants):
         t['init'] = {'blk': last['blk']}
         rc = (ctx.seed + len(c['id'])) % 2 if c['last'] > 0 else 0
         t['cfg'] = {'mode': 'mbt', 'Power': c['power'], 'Last': c['last'], 'N': c['n'], 'seed': ctx.seed,
-                    'variants': variants, 'rc': rc, 'config': c['id']}
+                    'variants': variants, 'rc': rc, 'config': c['id'], 'hist': c.get('hist', 'none')}
         per[c['id']] = per.get(c['id'], 0) + 1
         t['id'] = '%s-%d-%d' % (c['id'], ctx.seed, per[c['id']])
         out.append(t)
@@ -131,6 +131,14 @@ def byz_sample(ctx, traces, n_single, n_multi):
 def chain_traces(ctx, quick):
     rc = 1 + ctx.seed % 3
     out = [{'id': 'chain-1111-%d' % ctx.seed, 'cfg': {'mode': 'chain', 'Power': [1, 1, 1, 1], 'heights': 3, 'rc': rc}, 'steps': []}]
+    # validator-set histories: block histAt changes the set of the next height (lower / raise / add / remove)
+    kinds = ['lower', 'raise', 'add', 'remove']
+    for k, kind in enumerate(kinds if not quick else [kinds[ctx.seed % 4], kinds[(ctx.seed + 2) % 4]]):
+        power = [7, 1, 1, 1] if kind == 'lower' else [2, 2, 2, 1]
+        at = 1 + (ctx.seed + k) % 2
+        out.append({'id': 'chain-%s-%d' % (kind, ctx.seed), 'steps': [],
+                    'cfg': {'mode': 'chain', 'Power': power, 'heights': at + 2, 'rc': at + 1 if (ctx.seed + k) % 3 else at,
+                            'hist': kind, 'histAt': at}})
     if not quick:
         out += [{'id': 'chain-1234-%d' % ctx.seed, 'cfg': {'mode': 'chain', 'Power': [1, 2, 3, 4], 'heights': 3, 'rc': 1 + (ctx.seed + 1) % 3}, 'steps': []},
                 {'id': 'chain-112-%d' % ctx.seed, 'cfg': {'mode': 'chain', 'Power': [1, 1, 2], 'heights': 4, 'rc': 1 + (ctx.seed + 2) % 4}, 'steps': []},
@@ -198,8 +206,13 @@ def run(ctx, replay=None):
         # the specification must notice the repaired defect when it is put back (guards against a vacuous Decl)
         return tlc.run(SPEC, MOD, 'MC_BlockValidity_orig.cfg', workers=1, timeout=600)
 
-    with ThreadPoolExecutor(max_workers=2) as ex:
+    def sanity2():
+        # ... and a last-commit judged against the NEXT validator set (LastValidators aliasing the changed set)
+        return tlc.run(SPEC, MOD, 'MC_BlockValidity_orig2.cfg', workers=1, timeout=600)
+
+    with ThreadPoolExecutor(max_workers=3) as ex:
         fs = [ex.submit(check, n) for n in names]
+        fsan2 = ex.submit(sanity2)
         try:
             engine.build_go(ctx, [DRV])
             # real chains are checked while TLC is busy
@@ -228,6 +241,10 @@ def run(ctx, replay=None):
         if r.scratch and os.path.exists(os.path.join(r.scratch, 'graph.dot')) and not r.timeout and not r.error:
             traces += traces_of(ctx, name, r, variants)
         tlc.cleanup(r)
+    san2 = fsan2.result()
+    ctx.cov['spec_notices_commit_judged_by_next_validator_set'] = bool(san2.violation)
+    if not san2.violation:
+        ctx.inconclusive.append('sanity run: with JudgeBy = "next" TLC should report CodeEqualsDecl violated, it did not (%s)' % san2.summary())
     ctx.cov['spec_notices_missing_validators_hash_check'] = bool(san.violation)
     if not san.violation:
         ctx.inconclusive.append('sanity run: with CheckVHash = FALSE TLC should report CodeEqualsDecl / '
@@ -320,5 +337,5 @@ def run(ctx, replay=None):
         'small scope: 2-5 validators, equal and unequal powers with totals == 0, 1 and 2 (mod 3), <= 2 (3) simultaneous malformations from the honest block plus '
         'every combination of slot classes over the whole commit',
         'block time is not part of the property (the code does not check it: TODO in Block.ValidateBasic)',
-        'validator-set changes between heights are covered by C14/C16; here the set is constant per chain, except in the voteset slice '
-        'where the set is also built through Update / Add+Remove histories']
+        'validator-set histories: one change (power lowered / raised, validator added / removed, applied in EndBlock the way '
+        'plugin.AdminOp.updateValidators does) at one height per chain; the admin transaction path itself is covered by C14']
